@@ -90,7 +90,10 @@ CLAIMED = {
        "`return v` of its body into its value and falling off the end into (); loop bodies catch break / continue and propagate "
        "return; a loop never lets break / continue out and evaluates to () (induction on fuel); if / if-set / while-set select by "
        "the condition / the run-time type; match arms are tried top to bottom (type arm by run-time tag, value arm by equality, "
-       "other arm), an uncovered match is `wrong`; blocks evaluate to their last statement. Tied to the implementation by 248 "
+       "other arm), an uncovered match is `wrong`; blocks evaluate to their last statement; and over the model of "
+       "Match::is_covering_type / MatchArm::covers: a match the checker accepts always has an arm for the value it meets "
+       "(coverage_sound: if the arms cover the static type T, then for every run-time type R below T some arm's run-time test "
+       "succeeds - through unions member by member and, for type arms, by transitivity of matches). Tied to the implementation by 248 "
        "systematic templates (4 loops x 7 enclosing constructs x 3 signals, nested loops, all arm orders, 13 array-tag provenances).",
   note=SPEC_NOTE, technique="Lean 4 proof over a reference semantics + differential control-flow templates", ref="DESIGN.md §6 C12"),
  "C13": dict(
